@@ -9,6 +9,7 @@ struct LawParams { double growth, min_vol_factor, K, pmax, div_factor, p0; };   
 static std::string law_json(const LawParams& p) { return "{\"growth_rate\":" + jnum(p.growth) + ",\"min_vol/V0\":" + jnum(p.min_vol_factor) + ",\"K\":" + jnum(p.K) + ",\"max_pressure\":" + (std::isinf(p.pmax) ? std::string("\"INF\"") : jnum(p.pmax)) + ",\"division_vol/V0\":" + (std::isinf(p.div_factor) ? std::string("\"INF\"") : jnum(p.div_factor)) + ",\"initial_pressure\":" + jnum(p.p0) + "}"; }
 static const double SCALES[4] = {1.0, 1.1, 0.9, 0.5};
 
+static std::string* g_trace = nullptr;   // observable outcome of the current history (for the measured count of distinct cases)
 static std::string run_law(int type_gid, const LawParams& lp, const std::vector<int>& hist, long* steps = nullptr) {
     auto ty = sc::make_cell_type((short)type_gid, 3); sc::Mesh m = sc::icosphere(1); char buf[400];
     cell_ptr probe = sc::make_cell(m, 0, ty, true); const double V0 = probe->get_volume(); probe->clear_data();
@@ -34,6 +35,7 @@ static std::string run_law(int type_gid, const LawParams& lp, const std::vector<
             if (std::fabs(c.get_pressure() - pexp) > 1e-9 * std::max(1.0, std::fabs(pexp)) * std::max(1.0, lp.K)) { snprintf(buf, sizeof buf, "pressure-law: step %zu reported %.17g expected min(-K ln(V/Vt), Pmax) = %.17g (V=%.9g Vt=%.9g)", i, c.get_pressure(), pexp, V, target); return buf; }
             bool ready = c.is_ready_to_divide(), expect_ready = (type_gid == 0) && (V >= lp.div_factor * V0);
             if (std::fabs(V - lp.div_factor * V0) > 1e-9 * V && ready != expect_ready) { snprintf(buf, sizeof buf, "division-trigger: step %zu is_ready_to_divide=%d but V=%.9g division volume=%.9g cell type %d", i, (int)ready, V, lp.div_factor * V0, type_gid); return buf; }
+            if (g_trace) { snprintf(buf, sizeof buf, "%.9g %.9g %d %d;", c.get_target_volume(), c.get_pressure(), (int)ready, (int)c.is_below_min_vol()); *g_trace += buf; }
             bool below = c.is_below_min_vol(); if (std::fabs(V - ty->min_vol_) > 1e-9 * V && below != (V < ty->min_vol_)) { snprintf(buf, sizeof buf, "below-minimum-volume-flag: step %zu flag=%d V=%.9g Vmin=%.9g", i, (int)below, V, ty->min_vol_); return buf; }
         }
     } catch (std::exception& e) { err = std::string("exception: ") + e.what(); }
@@ -92,7 +94,7 @@ static void explore(Result& R) {
     for (int ty = 0; ty < 5; ty++) for (auto& lp : menu) { long nh = 1; for (int d = 0; d < depth; d++) nh *= 4;
         for (long code = 0; code < nh; code++) { if (R.out_of_time(0.5)) { R.cap("deadline in the cell-cycle law block"); goto removal; } std::vector<int> h; long c = code; for (int d = 0; d < depth; d++) { h.push_back(c % 4); c /= 4; }
             { std::string hs; for (int x : h) hs += char('0' + x); progress("mode=law\ntype=" + std::to_string(ty) + "\nparams=" + dhex(lp.growth) + " " + dhex(lp.min_vol_factor) + " " + dhex(lp.K) + " " + dhex(lp.pmax) + " " + dhex(lp.div_factor) + " " + dhex(lp.p0) + "\nhist=" + hs + "\n"); }
-            std::string e = run_law(ty, lp, h, &law_steps); law_hist++;
+            std::string tr; g_trace = &tr; std::string e = run_law(ty, lp, h, &law_steps); g_trace = nullptr; law_hist++; if (!tr.empty()) R.distinct_case("law " + std::to_string(ty) + " " + tr);
             if (e.rfind("exception", 0) == 0) { R["law_histories_ended_by_exception"]++; continue; }
             if (!e.empty()) { std::string hs; for (int x : h) hs += char('0' + x); R.violation(clause_of(e) + "|type=" + std::to_string(ty), "cell type " + std::to_string(ty) + ", parameters " + law_json(lp) + ", scaling history " + hs + ": " + e, "mode=law\ntype=" + std::to_string(ty) + "\nparams=" + dhex(lp.growth) + " " + dhex(lp.min_vol_factor) + " " + dhex(lp.K) + " " + dhex(lp.pmax) + " " + dhex(lp.div_factor) + " " + dhex(lp.p0) + "\nhist=" + hs + "\n"); }
             if (law_hist % 20000 == 1) R.sample("{\"block\":\"law\",\"cell_type\":" + std::to_string(ty) + ",\"params\":" + law_json(lp) + ",\"scalings\":\"" + [&] { std::string s; for (int x : h) s += char('0' + x); return s; }() + "\"}"); } }
@@ -105,6 +107,7 @@ removal:
         for (long s = 1; s <= N; s++) { g_forced_seed = (unsigned long)s; c->initialize_random_properties(); double g = c->get_growth_rate(), d = c->get_division_volume(); total++;
           if (!(g >= glo - tg && g <= ghi + tg)) { R.violation("growth-rate-outside-3-sigma|menu=" + std::to_string(m), "parameters " + clamp_json(cp) + ", seed " + std::to_string(s) + ": growth rate " + jnum(g) + " outside [" + jnum(glo) + ", " + jnum(ghi) + "]", "mode=clamp\nmenu=" + std::to_string(m) + "\nseed=" + std::to_string(s) + "\n"); break; }
           if (!(d >= dlo - td && d <= dhi + td)) { R.violation("division-volume-outside-3-sigma|menu=" + std::to_string(m), "parameters " + clamp_json(cp) + ", seed " + std::to_string(s) + ": division volume " + jnum(d) + " outside [" + jnum(dlo) + ", " + jnum(dhi) + "]", "mode=clamp\nmenu=" + std::to_string(m) + "\nseed=" + std::to_string(s) + "\n"); break; }
+          { char kb[80]; snprintf(kb, sizeof kb, "clamp %zu %.17g %.17g", m, g, d); R.distinct_case(kb); }
           if (g == glo) lo_g++; else if (g == ghi) hi_g++; else in_g++; if (d == dlo) lo_d++; else if (d == dhi) hi_d++; else in_d++; }
         std::string tn = "clamp_branch_hits_menu" + std::to_string(m); R.tables[tn]["growth_low"] = lo_g; R.tables[tn]["growth_high"] = hi_g; R.tables[tn]["growth_inside"] = in_g; R.tables[tn]["division_low"] = lo_d; R.tables[tn]["division_high"] = hi_d; R.tables[tn]["division_inside"] = in_d;
         if (!(lo_g && hi_g && lo_d && hi_d && in_g && in_d) && R.violations.empty()) R.internal_error = "a clamp branch was never taken in the seed range (vacuous), menu " + std::to_string(m);
@@ -115,14 +118,14 @@ removal:
     // (c) removal: all assignments of {keep, shrink} over 3 iterations, populations of 2..4
     { long hist = 0, removed = 0; for (int n = 2; n <= (th ? 4 : 3); n++) { std::deque<History> fr; fr.push_back({}); int D = 3;
         while (!fr.empty()) { if (R.out_of_time(0.92)) { R.cap("deadline in the removal block"); break; } History h = fr.front(); fr.pop_front(); size_t pop = n; if (!h.empty()) { size_t fp = 0; std::string e = run_removal(n, h, &fp); if (!e.empty()) continue; pop = fp; } if (pop == 0) { R["removal_histories_reaching_empty_population"]++; continue; }
-            for (long code = 0; code < (1l << pop); code++) { std::vector<int> ev(pop); for (size_t i = 0; i < pop; i++) ev[i] = (code >> i) & 1; History h2 = h; h2.push_back(ev); size_t fp = 0; std::string e = run_removal(n, h2, &fp, &removed); hist++;
+            for (long code = 0; code < (1l << pop); code++) { std::vector<int> ev(pop); for (size_t i = 0; i < pop; i++) ev[i] = (code >> i) & 1; History h2 = h; h2.push_back(ev); size_t fp = 0; std::string e = run_removal(n, h2, &fp, &removed); hist++; R.distinct_case("removal " + std::to_string(n) + " " + hist_text(h2) + " -> " + std::to_string(fp));
                 if (e.rfind("exception", 0) == 0) { R["removal_histories_ended_by_exception"]++; continue; }
                 if (!e.empty()) { R.violation(clause_of(e), std::to_string(n) + " cells, history " + hist_text(h2) + ": " + e, "mode=removal\nn=" + std::to_string(n) + "\nhist=" + hist_text(h2) + "\n"); continue; }
                 if ((int)h2.size() < D) fr.push_back(h2); if (hist % 100 == 1) R.sample("{\"block\":\"removal\",\"cells\":" + std::to_string(n) + ",\"shrink_events\":\"" + hist_text(h2) + "\"}"); } } }
       R["removal_histories"] = hist; R["cells_removed"] = removed; if (!removed) R.internal_error = "no cell was ever removed (vacuous)"; }
     sw::cleanup_scratch();
     R["states"] = R["law_histories"] + R["removal_histories"] + R["clamp_seeds"]; R["transitions"] = R["law_steps"] + R["removal_histories"] + R["clamp_seeds"]; R["evaluations"] = R["transitions"]; R["distinct_nontrivial"] = R["states"]; R["traces_validated_against_impl"] = R["law_histories"] + R["removal_histories"];
-    R.strings["rule"] = "law block: every cell type x parameter menu x every scaling history of the stated depth over {keep, x1.1, x0.9, x0.5}, apply_internal_forces after each scaling, compared step by step with the reference law (volume from an independent long double computation); clamp block: every seed 1..N handed to the real generators through the H2 seam; removal block: every assignment of {keep, shrink below minimum volume} to every cell over 3 real solver iterations, the survivors and their order compared with the volumes measured at the H6 'remove' boundary";
+    R.strings["rule"] = "distinct_nontrivial = number of DISTINCT observable outcomes (hashed): per law history the sequence of (target volume, pressure, ready, below-minimum) it produced, per seed the drawn (growth rate, division volume), per removal history the surviving population; law block: every cell type x parameter menu x every scaling history of the stated depth over {keep, x1.1, x0.9, x0.5}, apply_internal_forces after each scaling, compared step by step with the reference law (volume from an independent long double computation); clamp block: every seed 1..N handed to the real generators through the H2 seam; removal block: every assignment of {keep, shrink below minimum volume} to every cell over 3 real solver iterations, the survivors and their order compared with the volumes measured at the H6 'remove' boundary";
     R.assumptions = {"ECM cells are not subject to internal forces (ecm_cell overrides apply_internal_forces): only 'nothing changes' is checked for them; static cells are (they are only excluded from the position update)", "tolerances: target volume 1e-12, pressure and volume 1e-9 relative; decisions within 1e-9 of a threshold are not judged"};
 }
 
